@@ -177,6 +177,15 @@ def groupsForArg (c : Cmd) (id : Id) : List Id := (c.groups.filter fun g => g.ar
 def allSubcommandNames (c : Cmd) : List Bytes := c.subs.flatMap fun s => s.name :: s.aliases
 end Cmd
 
+mutual
+/-- height of the subcommand tree -/
+def Cmd.height : Cmd → Nat
+  | .mk _ _ _ _ _ _ _ _ _ subs => 1 + Cmd.heightList subs
+def Cmd.heightList : List Cmd → Nat
+  | [] => 0
+  | c :: cs => max c.height (Cmd.heightList cs)
+end
+
 /-! ### `MKeyMap` keys (built by `MKeyMap::_build`) -/
 inductive Key
   | short (c : Bytes) | long (l : Bytes) | pos (n : Nat)
